@@ -34,12 +34,12 @@ type Ev struct {
 // Event kinds.
 const (
 	KDial     = "dial"
-	KDeliver  = "deliver"  // env delivered a chunk (N bytes, Ref = frame index+1 if it completes a frame)
+	KDeliver  = "deliver" // env delivered a chunk (N bytes, Ref = frame index+1 if it completes a frame)
 	KFin      = "fin"
 	KRst      = "rst"
 	KFailW    = "failw"
-	KSrvRead  = "sread"    // server Read returned (N bytes / Err)
-	KSrvWrite = "swrite"   // server wrote Raw on conn C (Err if it failed)
+	KSrvRead  = "sread"  // server Read returned (N bytes / Err)
+	KSrvWrite = "swrite" // server wrote Raw on conn C (Err if it failed)
 	KSrvClose = "sclose"
 	KRead     = "read_cb"  // OnReadExecutionEvent
 	KWrite    = "write_cb" // OnWriteExecutionEvent
